@@ -28,7 +28,8 @@ Inductive cell :=
 
 Definition heap := list cell.
 
-Inductive ty := TInt | TStr | TList (t : ty) | TDict (t : ty) | TTup1 (t : ty) | TTup2 (t1 t2 : ty) | TOpt (t : ty).
+Inductive ty := TInt | TStr | TList (t : ty) | TDict (t : ty) | TTup1 (t : ty) | TTup2 (t1 t2 : ty) | TOpt (t : ty)
+              | TNargs (t : ty).   (* add_argument(type=t, nargs="*"): a list-valued ACTION, only at the top of a declaration *)
 Inductive mode := Deser | Ser.
 
 Definition cell_vals (c : cell) : list val :=
@@ -205,6 +206,19 @@ Fixpoint adapt (fx : bool) (m : mode) (t : ty) (v : val) : H val :=
       match v with
       | VNone => hret VNone
       | _ => adapt fx m t' v
+      end
+  | TNargs t' =>                             (* ActionTypeHint._check_type / serialize / instantiate_classes with islist:
+                                                `for num, val in enumerate(value): ... value[num] = val` — the elements are
+                                                written back into the list that was HANDED OVER (no copy, on every tree) *)
+      match v with
+      | VRef l => c <- hread v ;;
+                  match c with
+                  | CList xs => list_loop (adapt fx m t') l 0 xs ;;; hret v
+                  | _ => hfail
+                  end
+      | VTup [] => hret v
+      | VTup (x :: _) => adapt fx m t' x ;;; hfail   (* value[0] = ... on a tuple: TypeError *)
+      | _ => hfail
       end
   | TList t' =>
       match v with
@@ -451,8 +465,7 @@ Definition merge_config (fx : bool) (cfg_from cfg_to : val) : M val :=
 
 (* ---- validate (_core.py:1070-1155): cfg.clone(); check_values over the keys in order; an unknown
    key raises; None is skipped; adapted values are dropped (but the in-place writes are not). *)
-Definition validate (fx : bool) (p : parser) (cfg : val) : M unit :=
-  c <-- lift (clone fx FUEL cfg) ;;
+Definition validate_body (fx : bool) (p : parser) (c : val) : M unit :=
   bracket G_LOADMODE 1 (
     kvs <-- lift (ns_items c) ;;
     miter (fun kv : str * val =>
@@ -463,6 +476,19 @@ Definition validate (fx : bool) (p : parser) (cfg : val) : M unit :=
                          | x => check_value_key fx false d x ;;;; ret tt
                          end
              end) kvs).
+Definition validate (fx : bool) (p : parser) (cfg : val) : M unit :=
+  c <-- lift (clone fx FUEL cfg) ;;
+  validate_body fx p c.
+(* validate(cfg, branch=KEY): `cfg = ccfg = cfg.clone(); branch_cfg = cfg; cfg = Namespace(); cfg[branch] = branch_cfg`,
+   then the same checks on the keys KEY.k (every argument of the modelled parser is declared as --KEY.k) *)
+Definition BRANCH : str := [103]%N.
+(* a (wrong) validate(cfg, branch=KEY) that wraps the caller's namespace itself *)
+Definition validate_branch_noclone (fx : bool) (p : parser) (cfg : val) : M unit :=
+  lift (halloc (CNs [(BRANCH, cfg)])) ;;;; validate_body fx p cfg.
+Definition validate_branch (fx : bool) (p : parser) (cfg : val) : M unit :=
+  c <-- lift (clone fx FUEL cfg) ;;
+  lift (halloc (CNs [(BRANCH, c)])) ;;;;
+  validate_body fx p c.
 
 (* ---- _parse_common (_core.py:337-389): add_sub_defaults under lenient_check, validate under
    parent_parser; default_meta is on, so no strip_meta at the end. *)
@@ -590,6 +616,7 @@ Inductive op :=
 | OParseString (cells : list cell) (root : val)
 | OParsePath (cells : list cell) (root : val)
 | OValidate (a : val)
+| OValidateBranch (a : val)
 | ODump (a : val) (skipval : bool)
 | OSave (a : val) (file_exists : bool)
 | OMerge (a b : val)
@@ -603,6 +630,7 @@ Definition run_op_gen (fx : bool) (p : parser) (o : op) : M val :=
   | OParseString cs r => parse_string fx p cs r
   | OParsePath cs r => parse_path fx p cs r
   | OValidate a => validate fx p a ;;;; ret VNone
+  | OValidateBranch a => validate_branch fx p a ;;;; ret VNone
   | ODump a sv => dump fx p sv a ;;;; ret VNone
   | OSave a ex => save fx p ex a ;;;; ret VNone
   | OMerge a b => merge_config fx a b
@@ -718,7 +746,7 @@ Definition parse_object_arg_ok (h : heap) (a : val) : bool :=
 Definition op_args (o : op) : list val :=
   match o with
   | OGetDefaults | OParseString _ _ | OParsePath _ _ => []
-  | OParseObject a | OValidate a | ODump a _ | OSave a _ | OStripUnknown a | OInstantiate a => [a]
+  | OParseObject a | OValidate a | OValidateBranch a | ODump a _ | OSave a _ | OStripUnknown a | OInstantiate a => [a]
   | OMerge a b => [a; b]
   end.
 
